@@ -148,6 +148,39 @@ def obsLine (s0 s1 : State) (o : Out) : String :=
   let evs := sortList ((s1.mem.log.drop s0.mem.log.length).map showEvent)
   s!"{o.status} out={o.out} ev=[{" ".intercalate evs}] aux=0 | {probe s1}"
 
+/-- `T::clone`, called by the library in the middle of `make_mut` / `make_unique` / `unwrap_or_clone` on a SHARED handle,
+is user code: it may use another handle (slot `k`) to the value — drop it, read the count through it, ask it for
+`get_mut`.  In the model this is a composition of steps: the count read / `get_mut` verdict is that of the state BEFORE the
+op (the library has not released or redirected anything yet when it calls `clone`), and a drop of `k` inside `clone` has
+the same effect as a drop right after the op (the old allocation loses its owners in the other order; if the writer has
+become the last owner by then, ITS release destroys the old value).  On a sole owner `clone` is not called: plain op. -/
+def hookOp (s : State) (opn src : String) (v : Option String) (k act : String) : Option (State × Out) := do
+  let src ← src.toNat?
+  let k ← k.toNat?
+  let v ← match v with | some x => x.toNat? | none => some 0
+  let h ← lookup s src
+  let base : Op ← match opn with
+    | "makeMutH" => some (.makeMut src v false)
+    | "makeUniqueH" => some (.makeUnique src v false)
+    | "unwrapOrCloneH" => some (.unwrapOrClone src false)
+    | _ => none
+  let hk ← match lookup s k with | some x => some x | none => none
+  let okSrc := (h.kind = .arc && h.ty = .sized) || (opn == "makeMutH" && h.kind = .offset && h.ty = .sized)
+  let okK := k != src && (hk.kind = .arc || hk.kind = .offset || hk.kind = .unionA || hk.kind = .unionB) &&
+    (act == "drop" || act == "cnt" || (act == "getmut" && hk.kind = .arc))
+  if !(okSrc && okK) then some (s, badOp) else
+  let shared := !(Arc.is_unique s.mem h)
+  let (s1, o1) := step s base
+  if o1.status != "ok" then some (s, badOp) else
+  let pre := if o1.out == "" then "" else o1.out ++ ";"
+  if !shared then some (s1, ok (pre ++ "hook=-")) else
+  match act with
+  | "drop" =>
+    let (s2, o2) := step s1 (.drop k)
+    if o2.status != "ok" then some (s, badOp) else some (s2, ok (pre ++ "hook=dropped"))
+  | "cnt" => some (s1, ok (pre ++ s!"hook=cnt:{loadCount s.mem hk.blk}"))
+  | _ => some (s1, ok (pre ++ (if loadCount s.mem hk.blk == 1 then "hook=mut:some" else "hook=mut:none")))
+
 partial def loop (h : IO.FS.Stream) (out : IO.FS.Stream) (s : State) : IO Unit := do
   let line ← h.getLine
   if line.isEmpty then return ()
@@ -162,6 +195,15 @@ partial def loop (h : IO.FS.Stream) (out : IO.FS.Stream) (s : State) : IO Unit :
     match parseOp l with
     | none =>
       match l.splitOn " " with
+      | [opn, a1, a2, a3, a4] =>
+        -- re-entrant user code inside `T::clone` (`makeMutH s v k act` / `makeUniqueH s v k act`): see `hookOp`
+        match hookOp s opn a1 (some a2) a3 a4 with
+        | some (s', o) => out.putStrLn (obsLine s s' o); out.flush; loop h out s'
+        | none => out.putStrLn "unparsed"; out.flush; loop h out s
+      | ["unwrapOrCloneH", a1, a3, a4] =>
+        match hookOp s "unwrapOrCloneH" a1 none a3 a4 with
+        | some (s', o) => out.putStrLn (obsLine s s' o); out.flush; loop h out s'
+        | none => out.putStrLn "unparsed"; out.flush; loop h out s
       | "asw" :: rest =>
         -- arc-swap integration (`RefCnt for Arc<T>`): an `ArcSwapAny<Arc<T>>` cell is one more owning handle of the
         -- allocation.  Its operations are compositions of steps of the model (so every theorem about histories applies
